@@ -66,6 +66,9 @@ fn play(calls: &[Call], rng: &mut Rng, r: &mut Report, rp: &dyn Fn() -> Json, st
     let mut b = Builder::new();
     let mut marker = 5_000_000u32;
     let mut log: Vec<String> = vec![];
+    // ids returned by earlier calls: used as arguments of later calls half of the time (def-use links,
+    // e.g. an ext_inst whose set operand is the id of an earlier ext_inst_import)
+    let mut returned: Vec<u32> = vec![];
     for (step, c) in calls.iter().enumerate() {
         let sf = b.selected_function().is_some();
         let sb = b.selected_block().is_some();
@@ -74,6 +77,10 @@ fn play(calls: &[Call], rng: &mut Rng, r: &mut Report, rp: &dyn Fn() -> Json, st
         let name = call_name(c);
         let mut trace = String::new();
         let mut ctx = ArgCtx::default();
+        if !returned.is_empty() && step % 2 == 1 {
+            ctx.small_pool = Some(returned.iter().rev().take(6).cloned().collect());
+        }
+        let mut got_word: Option<u32> = None;
         if let (Some(f), Some(bl)) = sel_before {
             if f < before.functions.len() && bl < before.functions[f].blocks.len() {
                 ctx.block_len = before.functions[f].blocks[bl].instructions.len();
@@ -106,6 +113,7 @@ fn play(calls: &[Call], rng: &mut Rng, r: &mut Report, rp: &dyn Fn() -> Json, st
                     let mut args = RandArgs::new(rng, &mut marker, &ctx, method(*i).name);
                     let out = call(&mut b, &mut args);
                     trace = show_trace(&args.trace);
+                    got_word = out.word();
                     match out {
                         CallOut::ResWord(Ok(_)) | CallOut::ResUnit(Ok(_)) => Res::Ok,
                         CallOut::ResWord(Err(_)) | CallOut::ResUnit(Err(_)) => Res::Err,
@@ -130,6 +138,9 @@ fn play(calls: &[Call], rng: &mut Rng, r: &mut Report, rp: &dyn Fn() -> Json, st
                 }
             }
         });
+        if let Some(w) = got_word {
+            returned.push(w);
+        }
         log.push(format!("{}{}", name, if trace.is_empty() { String::new() } else { format!("({})", trace.chars().take(120).collect::<String>()) }));
         let hist = || log.join("; ");
         let key = match c {
@@ -224,6 +235,18 @@ fn play(calls: &[Call], rng: &mut Rng, r: &mut Report, rp: &dyn Fn() -> Json, st
     let _ = dr::Module::new();
 }
 
+/// Indices whose low 32 (or 16) bits are small: a truncating comparison would accept them.
+fn huge_index(rng: &mut Rng) -> usize {
+    let low = rng.below(3);
+    match rng.below(5) {
+        0 => (1usize << 32) + low,
+        1 => (1usize << 16) + low,
+        2 => usize::MAX - low,
+        3 => (1usize << 63) + low,
+        _ => ((rng.below(1000) + 1) << 32) + low,
+    }
+}
+
 fn pick_stub(rng: &mut Rng, pools: &Pools) -> usize {
     match rng.below(10) {
         0..=3 => *rng.pick(&pools.block),
@@ -253,7 +276,7 @@ fn by_name(name: &str) -> usize {
 }
 
 pub fn run(cfg: &Cfg, rep: &mut Report) {
-    rep.rule = "Builder call histories on a fresh builder; after EVERY call: no panic, the selection designates an existing function/block or nothing, the Ok/Err outcome equals the iff-rule evaluated on the selection observed before the call, terminators/end_function close block/function, and a call that returned Err left the module (deep section-by-section comparison with a snapshot) and the selection unchanged. Exhaustive over all histories up to length 4 (quick) / 5 (thorough) of a 16-call alphabet, then random histories of 1..60 calls over all ~1150 generated call stubs (insert_ forms with in-range offsets), select_function/select_block with in- and out-of-range indices, pop_instruction, id. distinct_nontrivial = distinct (call class, selection state before, outcome) triples".into();
+    rep.rule = "Builder call histories on a fresh builder; after EVERY call: no panic, the selection designates an existing function/block or nothing, the Ok/Err outcome equals the iff-rule evaluated on the selection observed before the call, terminators/end_function close block/function, and a call that returned Err left the module (deep section-by-section comparison with a snapshot) and the selection unchanged. Exhaustive over all histories up to length 4 (quick) / 5 (thorough) of an 18-call alphabet, then random histories of 1..60 calls over all ~1150 generated call stubs (insert_ forms with in-range offsets), select_function/select_block with in- and out-of-range indices, pop_instruction, id. distinct_nontrivial = distinct (call class, selection state before, outcome) triples".into();
     let pl = pools();
     let alphabet: Vec<Call> = vec![
         Call::BeginFunction,
@@ -272,6 +295,8 @@ pub fn run(cfg: &Cfg, rep: &mut Report) {
         Call::SelectBlock(Some(1)),
         Call::SelectBlock(None),
         Call::Pop,
+        Call::SelectBlock(Some(1usize << 32)),
+        Call::SelectFunction(Some(1usize << 32)),
     ];
     let k = alphabet.len() as u64;
     let maxlen: u32 = if cfg.tier_thorough { 5 } else { 4 };
@@ -307,8 +332,8 @@ pub fn run(cfg: &Cfg, rep: &mut Report) {
                 4..=6 => Call::BeginBlock,
                 7 => Call::BeginBlockNoLabel,
                 8 => Call::FunctionParameter,
-                9 => Call::SelectFunction(if rng.chance(1, 4) { None } else { Some(rng.below(nf + 2)) }),
-                10 => Call::SelectBlock(if rng.chance(1, 4) { None } else { Some(rng.below(4)) }),
+                9 => Call::SelectFunction(if rng.chance(1, 4) { None } else if rng.chance(1, 6) { Some(huge_index(rng)) } else { Some(rng.below(nf + 2)) }),
+                10 => Call::SelectBlock(if rng.chance(1, 4) { None } else if rng.chance(1, 6) { Some(huge_index(rng)) } else { Some(rng.below(4)) }),
                 11 => Call::Pop,
                 12 => Call::Id,
                 _ => Call::Stub(pick_stub(rng, plr)),
